@@ -455,6 +455,32 @@ fn listener_part(case: &Case) -> Result<(), (String, String)> {
         Ok(())
     })();
     run.shutdown();
+    r?;
+    // (b') the same deadline with the PROXY protocol switched on: a client that withholds its PROXY header, or
+    // stalls inside it, is closed by the configured timeout as well (the deadline is far below the built-in default)
+    let cfg = ListenerCfg { timeout: to, proxy: Some((true, true)), ..Default::default() };
+    let run = net::start_listener(&cfg, NetScript { discovery_ms: None, ..Default::default() }, 2);
+    let r = (|| {
+        let v2 = net::proxy_v2("192.168.0.1:40000".parse().expect("addr"), "10.0.0.1:25565".parse().expect("addr"));
+        let stalls: [(&str, Vec<u8>); 3] = [("no PROXY header at all", Vec::new()), ("stalls inside a v1 PROXY header", b"PROXY TCP4 192.168.0.1 ".to_vec()), ("stalls inside a v2 PROXY header", v2[..v2.len().min(14)].to_vec())];
+        let mut clients = Vec::new();
+        for (name, bytes) in stalls {
+            let mut c = NetClient::connect(run.port).map_err(|e| ("inconclusive".to_string(), e.to_string()))?;
+            if !bytes.is_empty() {
+                let _ = c.write_raw(&bytes);
+            }
+            clients.push((name, c));
+        }
+        for (name, c) in clients.iter_mut() {
+            match c.wait_closed((to + SLACK + Duration::from_secs(1)).saturating_sub(c.connected_at.elapsed())) {
+                Some((after, _)) if after <= to + SLACK => {}
+                Some((after, _)) => return Err(("closed-late".into(), format!("Listener with PROXY protocol and connection timeout {to:?}: client ({name}) closed after {after:?}"))),
+                None => return Err(("not-closed-after-timeout".into(), format!("Listener with PROXY protocol and connection timeout {to:?}: client ({name}) still open after {:?}", c.connected_at.elapsed()))),
+            }
+        }
+        Ok(())
+    })();
+    run.shutdown();
     r
 }
 
@@ -721,7 +747,7 @@ impl Check for C14 {
         }
     }
     fn rule(&self) -> String {
-        "per case one passage instance - in-process passage::start, or (half of the cases) a child process that reads the same settings through Config::read from a configuration file (json/yaml/yml/toml, CONFIG_FILE or default path), the auth secret file and environment variables (default or custom ENV_PREFIX) with decoy values in the lower layers - with generated max_packet_length (64 … 2^21-1), auth_cookie_expiry (30 s … 10^6 s), secret and timeout (1-2 s), and 6-19 concurrent client scenarios: a handshake frame of declared length M-1 / M / M+1 / 2M / 10000 / 10001 / 40 followed by a status request; a Transfer login presenting a correctly signed cookie whose age is inside or outside the configured expiry (margin 10 %), or signed with another secret; the cookie the router itself issued presented at once or after a configured expiry of 1-3 s; a cookie that expires while the client stalls; over-long and aliased length prefixes; a misbehaving client (silent, one byte per 50 ms, stops after 0-4 login steps, garbage). Plus the bare Listener with a 300-900 ms connection timeout and a discovery that never completes (silent client, logged-in client). non-trivial = a frame within 1 of a configured maximum other than 10000, a cookie age between the configured and the default expiry, or a behaviour that outlives the timeout; distinct = distinct case".into()
+        "per case one passage instance - in-process passage::start, or (half of the cases) a child process that reads the same settings through Config::read from a configuration file (json/yaml/yml/toml, CONFIG_FILE or default path), the auth secret file and environment variables (default or custom ENV_PREFIX) with decoy values in the lower layers - with generated max_packet_length (64 … 2^21-1), auth_cookie_expiry (30 s … 10^6 s), secret and timeout (1-2 s), and 6-19 concurrent client scenarios: a handshake frame of declared length M-1 / M / M+1 / 2M / 10000 / 10001 / 40 followed by a status request; a Transfer login presenting a correctly signed cookie whose age is inside or outside the configured expiry (margin 10 %), or signed with another secret; the cookie the router itself issued presented at once or after a configured expiry of 1-3 s; a cookie that expires while the client stalls; over-long and aliased length prefixes; a misbehaving client (silent, one byte per 50 ms, stops after 0-4 login steps, garbage). Plus the bare Listener with a 300-900 ms connection timeout and a discovery that never completes (silent client, logged-in client), and the same Listener with the PROXY protocol on (clients that send no PROXY header or stall inside a v1 / v2 header). non-trivial = a frame within 1 of a configured maximum other than 10000, a cookie age between the configured and the default expiry, or a behaviour that outlives the timeout; distinct = distinct case".into()
     }
     fn assumptions(&self) -> Vec<String> {
         vec![
